@@ -35,7 +35,7 @@ def pure(tier, rng):
         if i != f[0]:
             mism += 1
         if len(f) > 1 and f[1] != '-' and not vlib.res_equal(i, f[1]):
-            if len(f) > 2 and f[2] != '-':
+            if len(f) > 2 and f[2] != '-' and i == f[0]:
                 known += 1
             else:
                 bad.append(dict(kind='property-violated', requests=[l], pretty=[vlib.pretty_req(l)], observed=i, expected_by_spec=f[1], why='sys::mode differs from the documented grammar'))
